@@ -385,6 +385,11 @@ def run(ctx):
         oko = order == ['header_create', 'write_header', 'chunks_from_temp']
         ck.ob('C01-e', 'R2.order', zc.name, 'header-then-body', oko,
               'zck_close: %s' % ' -> '.join(order), zc.file, zc.line, config=config)
+        # ---- h  the zck tool's split-string scanner: two structural necessary conditions (the scanner as a whole is declined)
+        from ..rules import guardlen
+        ng = guardlen.check_guarded_lengths(ck, prog, config, 'C01-h')
+        nd = guardlen.check_deferred_flush(ck, prog, config, 'C01-h')
+        ck.min_instances('guarded writes / held-back counters in the zck tool', ng + nd, 3)
         # ---- g  the descriptor write wrapper hands every byte over exactly once, also across short writes
         from ..rules import contwrite
         contwrite.check_write_continuation(ck, prog, config, 'C01-g')
@@ -407,6 +412,13 @@ CLAIM = {
 }
 
 MUTANTS = [
+    {'id': 'm01s', 'desc': 'split scanner: queued byte dropped when exactly one byte precedes a match (pre-fix form)',
+     'file': 'src/zck.c', 'old': '                        if(l >= matched)', 'new': '                        if(l > matched)',
+     'expect': 'R4.guarded-length main'},
+    {'id': 'm01t', 'desc': 'split scanner: partial match at the end of the input never written (pre-fix form)',
+     'file': 'src/zck.c', 'old': """    if(in_size == 0 && matched > 0)
+        write_data(zck, arguments.split_string, matched);
+""", 'new': '', 'expect': 'R4.deferred-flush main'},
     {'id': 'm56', 'desc': 'final flush no longer forced', 'file': 'src/lib/zck.c',
      'old': 'if(comp_end_chunk(zck, true) < 0)', 'new': 'if(comp_end_chunk(zck, false) < 0)',
      'expect': 'R6.flush zck_close'},
